@@ -35,7 +35,7 @@ func TestCheck(t *testing.T) {
 		t.Skip("child process")
 	}
 	run := ev.Start(t, "C12", "exploration")
-	nBatches := run.Pick(144, 1500)
+	nBatches := run.Pick(144, 4000)
 	ev.Parallel(nBatches, ev.Workers(), func(i int) {
 		caseID := fmt.Sprintf("batch-%d", i)
 		if !run.Want(caseID) {
